@@ -82,18 +82,22 @@ Definition build_request (name : list Z) : option (list Z) :=
   end.
 
 (* ---------- reply parser (supla_esp_dns_recv_cb) ---------- *)
-Inductive pres := PFault | PResult | PIgnore | PAddr (a : list Z).
+Inductive pres := PFault | PHang | PResult | PIgnore | PAddr (a : list Z).
 
-(* the for-loop that skips the answer's name; `a` is an unsigned short *)
-Fixpoint scan (fuel : nat) (p : list Z) (L a : Z) : Z :=
+(* the for-loop that skips the answer's name.  Its index `a` has the width the translator reads from its
+   declaration in supla_esp_dns_recv_cb (SKIP_IDX_MOD = 2^bits): every update of `a` wraps at that width.
+   None = the loop is still running after len iterations, i.e. the index wrapped and the loop never ends
+   (without a wrap `a` grows by one per iteration and reaches L within L iterations). *)
+Definition idxw (z : Z) : Z := z mod SKIP_IDX_MOD.
+Fixpoint scan (fuel : nat) (p : list Z) (L a : Z) : option Z :=
   match fuel with
-  | O => a
+  | O => if a <? L then None else Some a
   | S k => if a <? L then
              let c := nthz p a in
-             if 192 <=? c then u16 (a + 2)
-             else if c =? 0 then a + 1
-             else scan k p L (a + 1)
-           else a
+             if 192 <=? c then Some (idxw (a + 2))
+             else if c =? 0 then Some (idxw (a + 1))
+             else scan k p L (idxw (a + 1))
+           else Some a
   end.
 
 Definition parse (dl : Z) (b : list Z) : pres :=
@@ -107,7 +111,9 @@ Definition parse (dl : Z) (b : list Z) : pres :=
     | Some an, Some fl =>
       if negb (Z.land fl RCODE_MASK =? RCODE_OK) || (an <? 1) then PResult else
       let p := drop dl b in let L' := L - dl in
-      let a := scan (Z.to_nat L') p L' 0 in
+      match scan (Z.to_nat L') p L' 0 with
+      | None => PHang
+      | Some a =>
       if L' <=? a + ASUFFIX_SIZE then PResult else
       match rd16 p (a + OFF_A_TYPE), rd16 p (a + OFF_A_CLASS), rd16 p (a + OFF_A_RDLENGTH) with
       | Some ty, Some cl, Some rl =>
@@ -115,6 +121,7 @@ Definition parse (dl : Z) (b : list Z) : pres :=
            || (L' <? a + ASUFFIX_SIZE + rl) then PIgnore
         else match rdn p (a + ASUFFIX_SIZE) ADDR_SIZE with Some ad => PAddr ad | None => PFault end
       | _, _, _ => PFault
+      end
       end
     | _, _ => PFault
     end
@@ -168,7 +175,8 @@ Inductive out :=
   | CB (a : option (list Z)) | Connect (port t r : Z) (addr : list Z) | Disconnect (t : Z)
   | Sent (r t : Z) (b : list Z) | SentNull (r l t : Z)
   | State (tc_ : Z) (succ pend reqnull : bool) (dl : Z) (ta ra : bool) (ip_ : list Z)
-  | Fault | Fuel.
+  | Fault | Fuel
+  | Hang.                (* the receive callback does not return *)
 
 Definition RETRY_US : Z := RETRY_MS * 1000.
 Definition TIMEOUT_US : Z := TIMEOUT_MS * 1000.
@@ -217,6 +225,7 @@ Definition timeout_cb (s : st) : st * list out :=
 Definition recv (s : st) (b : list Z) : st * list out :=
   match parse (dlen s) b with
   | PFault => (set_halted true s, [Fault])
+  | PHang => (set_halted true s, [Hang])
   | PResult => result s
   | PIgnore => (s, [])
   | PAddr a => (set_success true (set_ip a s), [Disconnect (now s)])
@@ -367,6 +376,7 @@ Definition wire_of_out (o : out) : wire :=
   | State k su pe rn dl ta ra a => mk 5 [k; b2z su; b2z pe; b2z rn; dl; b2z ta; b2z ra] a
   | Fault => mk 6 [] []
   | Fuel => mk 7 [] []
+  | Hang => mk 8 [] []
   end.
 Definition run_wire (fx : bool) (ws : list wire) : list wire :=
   map wire_of_out (snd (run_from fx init (map ev_of_wire ws))).
